@@ -19,6 +19,8 @@ import copy
 import keyword
 from typing import Any, Callable, Dict, List, Optional, Tuple
 
+from pbt import jsongen as jg
+
 KIND_ORDER = {'PO': 0, 'PK': 1, 'VP': 2, 'KO': 3, 'VK': 4}
 
 
@@ -97,7 +99,7 @@ class Runtime:
         if k == 'echo':
             return {'method': key, 'args': copy.deepcopy(entry['args'])}
         if k == 'return':
-            return copy.deepcopy(b['value'])
+            return jg.py_materialise(b['value'])
         if k == 'raise_rpc':
             raise self.error_builder(b['error'])
         if k == 'raise_exc':
@@ -143,9 +145,9 @@ def _pyname(name: str) -> str:
     return base
 
 
-def sig_source(params: List[Dict[str, Any]], skip_ctx: bool = False, leading_self: bool = False) -> Tuple[str, List[str]]:
-    """returns (parameter list source, names of non-context parameters)"""
-    parts: List[str] = ['self'] if leading_self else []
+def sig_source(params: List[Dict[str, Any]], skip_ctx: bool = False, leading_self: Any = False) -> Tuple[str, List[str]]:
+    """returns (parameter list source, names of non-context parameters); leading_self: False, True ('self') or the instance parameter's name"""
+    parts: List[str] = [leading_self if isinstance(leading_self, str) else 'self'] if leading_self else []
     names: List[str] = []
     seen_po = any(p['kind'] == 'PO' for p in params if not (skip_ctx and p.get('ctx')))
     po_open = seen_po
@@ -187,13 +189,15 @@ def valid_order(params: List[Dict[str, Any]]) -> bool:
         return False
 
 
-def _exec(src: str, name: str) -> Any:
-    fn = _FUNC_CACHE.get(src)
+def _exec(src: str, name: str, fresh: bool = False) -> Any:
+    """fresh: a new function object nobody else references (the caller drops it again) - otherwise cached by source text"""
+    fn = None if fresh else _FUNC_CACHE.get(src)
     if fn is None:
         ns: Dict[str, Any] = {'_RT': RT, 'NOCTX': NOCTX}
         exec(compile(src, f'<generated {name}>', 'exec'), ns)
         fn = ns[name]
-        _FUNC_CACHE[src] = fn
+        if not fresh:
+            _FUNC_CACHE[src] = fn
     return fn
 
 
@@ -218,7 +222,7 @@ def build_function(mspec: Dict[str, Any]) -> Any:
         body = f"async def {py}({src}):\n    return await _RT.acall({key!r}, {bound}, {ctx_expr})\n"
     else:
         body = f"def {py}({src}):\n    return _RT.call({key!r}, {bound}, {ctx_expr})\n"
-    return _exec(body, py)
+    return _exec(body, py, fresh=bool(mspec.get('ephemeral')))
 
 
 def build_view(mspec: Dict[str, Any], extra_members: bool = False) -> Any:
@@ -226,7 +230,8 @@ def build_view(mspec: Dict[str, Any], extra_members: bool = False) -> Any:
     from pjrpc.server import ViewMixin
     key = mspec['name']
     py = _pyname(key)
-    src, names = sig_source(mspec['params'], leading_self=True)
+    me = mspec.get('self_name', 'self')      # the instance parameter need not be called 'self'
+    src, names = sig_source(mspec['params'], leading_self=me)
     bound = '{' + ', '.join(f'{n!r}: {n}' for n in names) + '}'
     if mspec['flavour'] == 'aview' and mspec.get('scratch'):
         # the view instance is used as per-request scratch space across a suspension (what per-request instances are for)
@@ -234,9 +239,9 @@ def build_view(mspec: Dict[str, Any], extra_members: bool = False) -> Any:
                 f"        r = await _RT.acall({key!r}, {bound}, self._ctx)\n"
                 f"        if isinstance(r, dict) and 'args' in r:\n            r['args'] = self._scratch\n        return r\n")
     elif mspec['flavour'] == 'aview':
-        meth = f"    async def {py}({src}):\n        return await _RT.acall({key!r}, {bound}, self._ctx)\n"
+        meth = f"    async def {py}({src}):\n        return await _RT.acall({key!r}, {bound}, {me}._ctx)\n"
     else:
-        meth = f"    def {py}({src}):\n        return _RT.call({key!r}, {bound}, self._ctx)\n"
+        meth = f"    def {py}({src}):\n        return _RT.call({key!r}, {bound}, {me}._ctx)\n"
     ctor_extra = "        raise RuntimeError('view constructor failed')\n" if mspec.get('ctor_raises') else ''
     cls_src = (
         f"class View_{py}(ViewMixin):\n"
